@@ -139,6 +139,13 @@ pub fn campaigns(ctx: &Ctx) -> Stats {
     cfg.kinds.push((Kind::Backward, 6));
     let cfg2 = cfg.clone();
     st.merge(ctx.run_prop("programs-all-stored-gradients", total, move || recipe_strategy(len), move |r| Some(Case3::H(HistCase { oracle: "c03".into(), hist: elaborate(&cfg2, r) }))));
+    for (name, p) in [("programs-with-large-dimensions", Profile::LargeDims), ("programs-with-wide-magnitudes", Profile::WideMagnitudes)] {
+        let mut cfg = GenCfg::programs(false);
+        cfg.max_steps = t.pick(14, 30);
+        cfg.kinds.push((Kind::Backward, 6));
+        let cfg = cfg.with_profile(p, t == Tier::Thorough, crate::exec::IS_F32);
+        st.merge(ctx.run_prop(name, profile_total(t, p), move || recipe_strategy(12), move |r| Some(Case3::H(HistCase { oracle: "c03".into(), hist: elaborate(&cfg, r) }))));
+    }
     st
 }
 
